@@ -137,6 +137,9 @@ def run_c01(ctx):
         docs = lits + [b'[' + x + b']' for x in lits[::7]]
         ctx.violations += judge_c01(ctx, cfg, docs)
         ctx.violations += judge_state_isolation(ctx, cfg, 800)
+    for cfg in [c for c in getattr(ctx, 'side_cfgs', []) if c == 'fr' and c not in ctx.cfgs]:
+        # float_roundtrip: long literals after other work of the same Deserializer (shared scratch buffer): valid JSON must stay accepted
+        ctx.violations += judge_c01(ctx, cfg, list(long_literal_docs(ctx.rng)))
     ctx.violations += judge_private_tokens(ctx, acceptance_only=True)
 
 # ---- the private token keys (finding F23): with arbitrary_precision / raw_value an object whose FIRST key is the crate's private token is not read as an object
@@ -272,6 +275,25 @@ def value_docs(ctx, n):
     for s in gen.big_dup_objects(rng):
         yield s
 
+LONG_LITS = [b'9007199254740993.0001', b'-9007199254740993.0005', b'18014398509481986.0001', b'1.00000000000000011103', b'1844674407370955161.6', b'0.00987654321098765432109',
+             b'3.14159265358979323846264', b'0.12345678901234567890123', b'123456789012345678901234567890', b'0.000000000000000000001234567890123456789', b'1.7976931348623157e308',
+             b'2.2250738585072011e-308', b'0.1000000000000000055511151231257827', b'4.35', b'1e23', b'8.41e21', b'9007199254740992.99999999999']
+
+def long_literal_docs(rng):
+    dirt = [b'"tab\\there"', b'"\\u0037\\u0037"', b'123456789012345678901234567890', b'"plain"', b'{"2024":1}', b'[[1,2],"x"]', b'0.5']
+    for l in LONG_LITS:
+        yield l
+        yield b'[' + l + b']'
+        yield b'{"k": ' + l + b'}'
+        for d in dirt:
+            yield b'[' + d + b', ' + l + b']'
+            yield b'{"a": ' + d + b', "pi": ' + l + b'}'
+    for _ in range(300):
+        m = str(rng.randrange(10 ** 19, 10 ** rng.randrange(20, 30)))
+        k = rng.randrange(0, len(m))
+        l = ((m[:k] or '0') + '.' + ('0' * rng.choice([0, 0, 1, 3]) + m[k:])).encode() + rng.choice([b'', b'e-5', b'E+3'])
+        yield b'[' + rng.choice(dirt) + b', ' + l + b']'
+
 def run_c02(ctx):
     ctx.rule = ('generated valid documents (all value kinds, whitespace placements, escape spellings, duplicate keys, number spellings, '
                 'integer boundaries) plus the exhaustive 4-token space; value printed canonically (floats as bit patterns, objects in iteration order) '
@@ -289,6 +311,9 @@ def run_c02(ctx):
         ctx.violations += judge_state_isolation(ctx, cfg, 1500 if ctx.tier == 'quick' else 15000)
     for cfg in [c for c in getattr(ctx, 'side_cfgs', []) if c == 'fr' and c not in ctx.cfgs]:
         ctx.violations += judge_state_isolation(ctx, cfg, 1500)
+        # float_roundtrip: long literals (the 20th / 21st significant digit decides; leading fraction zeros; > 19 digit integers) alone and AFTER other work
+        # of the same Deserializer that leaves bytes in the shared scratch buffer (escaped strings, long numbers, keys on reader input)
+        ctx.violations += judge_c02(ctx, cfg, list(long_literal_docs(ctx.rng)))
     for cfg in [c for c in getattr(ctx, 'side_cfgs', []) if c == 'ap' and c not in ctx.cfgs]:
         # arbitrary_precision side configuration: every number literal of a document must be held verbatim (model: NLit of exactly its text)
         lits = gen.number_literals(ctx.rng, 600)
